@@ -413,6 +413,7 @@ type funcResult struct {
 	Inlined     []string
 	Blocks      int
 	Trusted     string
+	Waived      []string
 }
 
 func (eng *Engine) newTop(fn *ssa.Function, c *Contract) *fnCtx {
@@ -581,6 +582,7 @@ func (eng *Engine) verifyFunction(tg target) *funcResult {
 	res.Externs = sortedKeys(fc.externsUsed)
 	res.Callees = sortedKeys(fc.calleeUsed)
 	res.Inlined = sortedKeys(fc.inlinedFns)
+	res.Waived = fc.waivedUsed
 	return res
 }
 
